@@ -354,7 +354,14 @@ func (cw *commandUnit) Cancel() error {
 
 	proc.Wait()
 
-	cw.UpdateBasicStatus(WorkStateCanceled, "Canceled", -1)
+	cw.UpdateFullStatus(func(status *StatusFileData) {
+		if status.State == WorkStateSucceeded {
+			// The job finished before the signal took effect: keep its result.
+			return
+		}
+		status.State = WorkStateCanceled
+		status.Detail = "Canceled"
+	})
 
 	return nil
 }
